@@ -175,6 +175,23 @@ def apply_cfg(B, algo, cfg):
 # --------------------------------------------------------------------------- spies
 
 
+def norm_bounds(b):
+    """bounds as handed to scipy (list of pairs or a scipy Bounds object) -> list of (lb, ub), None = infinite"""
+    def one(v):
+        if v is None:
+            return None
+        v = float(v)
+        return None if math.isinf(v) else v
+    if b is None:
+        return None
+    if hasattr(b, 'lb') and hasattr(b, 'ub'):
+        return [(one(l), one(u)) for l, u in zip(np.atleast_1d(b.lb), np.atleast_1d(b.ub))]
+    try:
+        return [(one(p[0]), one(p[1])) for p in b]
+    except Exception:  # noqa: BLE001
+        return repr(b)
+
+
 class Spy:
     """records what BIOGEME hands to the wrapper and what the wrapper hands to the external routine"""
 
@@ -211,7 +228,7 @@ class Spy:
 
         def minimize(fun, x0, *a, **kw):
             self.external_calls.append({'routine': 'scipy.optimize.minimize', 'kwargs': dict(kw.get('options') or {}),
-                                        'bounds': kw.get('bounds'), 'jac': kw.get('jac')})
+                                        'bounds': norm_bounds(kw.get('bounds')), 'jac': kw.get('jac')})
             return self.saved_minimize(fun, x0, *a, **kw)
 
         opt.sc.minimize = minimize
@@ -239,6 +256,17 @@ def real_run(problem, x0, bounds, algo, cfg, tag, quick=False):
     from biogeme.negative_likelihood import NegativeLikelihood
 
     out = {}
+    try:
+        return _real_run(out, problem, x0, bounds, algo, cfg, tag, quick)
+    except Exception as e:  # noqa: BLE001  (real-code exception outside estimate(): also an observation)
+        out['exc'] = f'{type(e).__name__}: {e}'
+        out['exc_kind'] = core.exc_kind(e)
+        return out
+
+
+def _real_run(out, problem, x0, bounds, algo, cfg, tag, quick):
+    from biogeme.negative_likelihood import NegativeLikelihood
+
     B, betas, fixed_beta = build(problem, x0, bounds, tag)
     apply_cfg(B, algo, cfg)
     order = list(B.id_manager.free_betas.names)
@@ -495,8 +523,9 @@ def compare_plumbing(res, case, out, ans):
         if not ok:
             res.diverge(f'external keyword {k!r}', case, v, repr(real), where=W2)
     if e['routine'] == 'scipy.optimize.minimize':
-        if e.get('jac') is not True or [tuple(b) for b in (e.get('bounds') or [])] != [tuple(b) for b in out['id_bounds']]:
-            res.diverge('scipy: jac / bounds', case, [True, out['id_bounds']], [e.get('jac'), e.get('bounds')], where=W2)
+        want = [(None if l is None else float(l), None if u is None else float(u)) for l, u in out['id_bounds']]
+        if e.get('jac') is not True or e.get('bounds') != want:
+            res.diverge('scipy: jac / bounds handed to minimize', case, [True, want], [e.get('jac'), e.get('bounds')], where=W2)
     if e.get('positional'):
         res.diverge('external routine called with positional arguments', case, 0, e['positional'], where=W2)
 
@@ -637,6 +666,17 @@ def bound_configs(rng, problem, ref):
         elif r < 0.6:
             one[n] = (round(ref[n] + 0.25, 2), None)
     cfgs['onesided'] = one
+    # sign constraints: a bound exactly 0 that cuts off the free optimum (upper 0 where the optimum is
+    # positive, lower 0 where it is negative), written as int 0 or float 0.0
+    zero = {n: (None, None) for n in names}
+    picked = rng.sample(names, min(len(names), rng.randint(1, 2)))
+    for n in picked:
+        z = rng.choice([0, 0.0])
+        if ref[n] > 0:
+            zero[n] = (rng.choice([None, round(-3.0 - abs(ref[n]), 1)]), z)
+        else:
+            zero[n] = (z, rng.choice([None, round(3.0 + abs(ref[n]), 1)]))
+    cfgs['zero'] = zero
     return cfgs
 
 
@@ -666,6 +706,15 @@ def slim(case):
 
 
 def check_one(ctx, res, case, tagc, group=None):
+    try:
+        return _check_one(ctx, res, case, tagc, group)
+    except Exception as e:  # noqa: BLE001
+        res.count({'harness_error': str(e)}, nontrivial=False)
+        res.violate(f'the run could not be evaluated: {type(e).__name__}: {e}', slim(case), str(e), 'an estimation whose outputs can be read', where='harness')
+        return {'exc': str(e)}
+
+
+def _check_one(ctx, res, case, tagc, group=None):
     out = real_run(case['problem'], case['x0'], case['bounds'], case['algo'], case['cfg'], f'c07_{tagc}', quick=case['quick'])
     res.count({'problem': case['problem']['id'], 'family': case['problem']['family'], 'K': case['problem']['K'], 'algo': case['algo'],
                'bounds': case['bcfg'], 'x0': case['x0'], 'quick': case['quick'], 'rows': len(case['problem']['rows'])}, nontrivial=nontrivial(case))
@@ -684,7 +733,14 @@ def check_one(ctx, res, case, tagc, group=None):
            for n, x in zip(order, out['xstar'])):
         res.tally('active_bound_at_solution')
     reqs = requests_for(case, out)
-    ctx.batch.add_many(list(reqs), lambda ans, case=case, out=out: (compare_plumbing(res, slim(case), out, ans[0]), compare_run(res, slim(case), out, ans[1], ans[2], ans[3])))
+    def cb(ans, case=case, out=out):
+        for fn, args in ((compare_plumbing, (ans[0],)), (compare_run, (ans[1], ans[2], ans[3]))):
+            try:
+                fn(res, slim(case), out, *args)
+            except Exception as e:  # noqa: BLE001
+                res.diverge(f'{fn.__name__}: the real output could not be interpreted ({type(e).__name__}: {e})', slim(case), 'comparable output', str(e), where='harness')
+
+    ctx.batch.add_many(list(reqs), cb)
     if group is not None:
         group.append((case, out))
     return out
@@ -771,6 +827,29 @@ def run_problem(ctx, res, rng, problem, tagc, algos, bcfgs, n_quick):
             case = {'kind': 'run', 'problem': problem, 'x0': x0, 'bounds': bounds, 'bcfg': bname, 'algo': algo, 'cfg': cfg, 'quick': True}
             check_one(ctx, res, case, tagc[0], group)
         check_pairs(ctx, res, group)
+    # runs that stop before convergence (max_iterations 1 or 2 from a poor start): results are returned,
+    # the contract holds, and the property's last sentence (write-back) has no convergence condition
+    bname = rng.choice(['none', 'inactive'])
+    bounds = configs[bname]
+    far = {}
+    for n in problem['names']:
+        lb, ub = bounds[n]
+        v = ref[n] + rng.choice([-1, 1]) * rng.choice([2.5, 3.0, 4.0])
+        if lb is not None:
+            v = max(v, lb + 0.5)
+        if ub is not None:
+            v = min(v, ub - 0.5)
+        far[n] = float(v)
+    cfg_short = dict(cfg)
+    cfg_short['max_iterations'] = rng.choice([1, 2])
+    group = []
+    for algo in [a for a in algos if a != 'scipy']:
+        tagc[0] += 1
+        case = {'kind': 'run', 'problem': problem, 'x0': far, 'bounds': bounds, 'bcfg': bname + '+short', 'algo': algo, 'cfg': cfg_short, 'quick': False}
+        o = check_one(ctx, res, case, tagc[0], group)
+        if 'exc' not in o and not o['converged']:
+            res.tally('short_run_not_converged')
+    check_pairs(ctx, res, group)
 
 
 def check(ctx) -> Result:
@@ -787,9 +866,9 @@ def check(ctx) -> Result:
         for pid in range(n_prob):
             problem = gen_problem(rng, pid)
             if ctx.quick:
-                bcfgs = ['none', 'active', 'onesided'] if pid % 2 == 0 else ['inactive', 'active', 'onesided']
+                bcfgs = ['none', 'active', 'zero'] if pid % 2 == 0 else ['inactive', 'onesided', 'zero']
             else:
-                bcfgs = ['none', 'inactive', 'active', 'onesided']
+                bcfgs = ['none', 'inactive', 'active', 'onesided', 'zero']
             run_problem(ctx, res, rng, problem, tagc, names, bcfgs, n_quick=2 if ctx.quick else 3)
             if len(res.violations) > 6:
                 break
